@@ -334,6 +334,25 @@ func (s *System) specKey(spec string, target int) string {
 	return spec
 }
 
+// forgeDonor returns the index of the observed message a forgery derives from (-1 if none).
+func (s *System) forgeDonor(spec string) int {
+	f := strings.Split(spec, ".")
+	var id int
+	var err error
+	switch {
+	case f[0] == "R" && len(f) == 3:
+		id, err = strconv.Atoi(f[1])
+	case f[0] == "M" && len(f) == 6:
+		id, err = strconv.Atoi(f[5])
+	default:
+		return -1
+	}
+	if err != nil || id < 0 || id >= len(s.msgs) {
+		return -1
+	}
+	return id
+}
+
 // probeForgeries returns the forgeries against which the validator of some unfinished honest participant is
 // not sound in the current state, as ready-to-explore actions.  A probe is identified by (scenario, target, the
 // target's progress, the forgery by content, whether the target has validated the message it derives from): what
@@ -364,6 +383,11 @@ func (s *System) probeForgeries() []action {
 				}
 				for _, route := range []byte{'1', '2'} {
 					s.probes++
+					if d := s.forgeDonor(spec); d >= 0 && s.validated[t][d] {
+						// the target has validated the genuine message the forgery derives from (by whichever route it
+						// arrived): it sees it once more on this route (a rebroadcast), then the forgery
+						_, _ = validateVia(s.parts[t], s.msgs[d].msg, route)
+					}
 					for n := 0; n < 2; n++ {
 						if _, err := validateVia(s.parts[t], m, route); err == nil {
 							routes += string(route)
